@@ -55,6 +55,8 @@ inductive Ev where
   | feedErr
   | op (id h : Nat) (req : Req)
   | poll (t : Task)
+  | hold (t : Task)
+  | release (t : Task)
   | drop (t : Task)
   | dropRsp (id : Nat)
   | stream (id : Nat)
@@ -143,6 +145,7 @@ structure World where
   pidCtr : Nat := 1
   subCtr : Nat := 1
   woken : List Task := []
+  held : List Task := []
   written : Nat := 0
   wirePend : Bytes := []
   out : List Obs := []
@@ -471,11 +474,12 @@ def minNat : List Nat → Option Nat
 
 /-- first flagged live task in the order ctx, ops by id, streams by id -/
 def pick (w : World) : Option Task :=
-  if Task.ctx ∈ w.woken ∧ w.taskLive .ctx then some .ctx else
-  match minNat (w.woken.filterMap fun t => match t with | .op n => if w.taskLive (.op n) then some n else none | _ => none) with
+  let ready := w.woken.filter fun t => w.taskLive t ∧ t ∉ w.held
+  if Task.ctx ∈ ready then some .ctx else
+  match minNat (ready.filterMap fun t => match t with | .op n => some n | _ => none) with
   | some n => some (.op n)
   | none =>
-    match minNat (w.woken.filterMap fun t => match t with | .st n => if w.taskLive (.st n) then some n else none | _ => none) with
+    match minNat (ready.filterMap fun t => match t with | .st n => some n | _ => none) with
     | some n => some (.st n)
     | none => none
 
@@ -505,7 +509,7 @@ def sortNat (l : List Nat) : List Nat := l.foldr insertSorted []
 /-- `exec=sweep`: every live task that is not flagged is polled once -/
 def sweep (w : World) : World :=
   let tasks : List Task := [Task.ctx] ++ (sortNat (w.ops.map (·.1))).map Task.op ++ (sortNat w.streams).map Task.st
-  tasks.foldl (fun w t => if w.taskLive t ∧ t ∉ w.woken then w.pollTask t else w) w
+  tasks.foldl (fun w t => if w.taskLive t ∧ t ∉ w.woken ∧ t ∉ w.held then w.pollTask t else w) w
 
 /-! ### events -/
 def mergeRuns : List ReadEv → List ReadEv
@@ -563,6 +567,8 @@ def apply (w : World) (e : Ev) : World :=
     if h ∉ w.handles ∨ (w.opSt id).isSome then w.badScript else
     ({ w with ops := w.ops ++ [(id, OpSt.fresh h req)] }).wake (.op id)
   | .poll t => if w.taskLive t then w.pollTask t else w
+  | .hold t => if t ∈ w.held then w else { w with held := w.held ++ [t] }
+  | .release t => { w with held := w.held.filter (· ≠ t) }
   | .drop t =>
     match t with
     | .ctx => w
